@@ -189,7 +189,8 @@ def matrix_system(
         lb = draw(st.sampled_from([None, [0.0] * nn]))
     else:
         fr = draw(gens.array((nn,), 0.0, 0.6, styles=("raw", "sparse"), tiny=1e-2))
-        top = ub if ub is not None else [1.0] * nn
+        # unbounded sources: lower bounds on the scale of the nominal range (also above 1 intensity unit)
+        top = ub if ub is not None else [draw(st.sampled_from([1.0, NOMINAL_RANGE]))] * nn
         lb = [float(f) * float(u) for f, u in zip(fr, top)]
     # capture matrix, redrawn (bounded) until well-conditioned
     redraws = 0
@@ -302,6 +303,16 @@ def target_rows(draw, sysd, kinds, nrows=(1, 4), margin=(0.05, 0.45)):
                     else:
                         b = b0 + delta * u
                     rows.append(dict(b=b.tolist(), kind=kind, delta=float(delta)))
+        elif kind == "below_lb":
+            # image of intensities with one source *below* its (positive) lower bound, the others strictly inside
+            u = np.asarray(draw(gens.array((n,), 0.1, 0.9, styles=("raw",))))
+            x = sv.lb + u * sv.range
+            j = draw(st.integers(0, n - 1))
+            if sv.lb[j] > 0:
+                x[j] = sv.lb[j] * draw(st.floats(0.05, 0.9))
+            else:
+                x[j] = -draw(st.floats(0.05, 0.5)) * sv.range[j]
+            rows.append(dict(b=sv.predict(x).tolist(), kind="below_lb", x=x.tolist()))
         elif kind == "below":
             v = np.asarray(draw(gens.array((m,), 0.0, 1.0, styles=("raw", "sparse"))))
             if not np.any(v > 0):
